@@ -149,16 +149,20 @@ def random_seq(rng, n):
 
 # ---- track() ---------------------------------------------------------------------------------
 
-def run_track(n, gen, auto, strategy=None):
+def run_track(n, gen, auto, strategy=None, total_delta=0, given_task=False):
     """track() over a sequence / generator of n items; with auto refresh the _TrackThread runs
     under dsched (timed waits fire when the strategy picks the thread)."""
     yielded = []
-    rec = dict(kind="track", n=n, gen=gen, auto=auto, exc="none", c2=-1, yielded=yielded)
+    rec = dict(kind="track", n=n, gen=gen, auto=auto, exc="none", c2=-1, yielded=yielded, total_delta=total_delta, given_task=given_task)
 
     def body(p):
         seq = list(range(1, n + 1))
         it = (x for x in seq) if gen else seq
-        for v in p.track(it, total=n if gen else None, description="x"):
+        total = max(0, n + total_delta) if (gen or total_delta) else None
+        kw = {}
+        if given_task:
+            kw["task_id"] = p.add_task("given", total=7)
+        for v in p.track(it, total=total, description="x", **kw):
             yielded.append(v)
         t = p.tasks[-1]
         rec["c2"] = int(t.completed * 2) if float(t.completed * 2).is_integer() else -999999
@@ -325,7 +329,7 @@ def run(chk: Check):
         if c["kind"] == "seq":
             judge_seq(chk, [c["ops"]])
         elif c["kind"] == "track":
-            judge_tracks(chk, [run_track(c["n"], c["gen"], c["auto"], dsched.Replay(c.get("choices", [])))])
+            judge_tracks(chk, [run_track(c["n"], c["gen"], c["auto"], dsched.Replay(c.get("choices", [])), total_delta=c.get("total_delta", 0), given_task=c.get("given_task", False))])
         else:
             judge_conc(chk, [(c["program"], run_conc(c["program"], dsched.Replay(c["choices"]), trace=c.get("trace", False), opcode=c.get("opcode", False)), c)])
         return
@@ -380,6 +384,9 @@ def run(chk: Check):
     for n in range(0, chk.pick(6, 12)):
         for gen in (False, True):
             tracks.append(run_track(n, gen, False))
+            for delta, given in ((-2, False), (3, False), (0, True), (-1, True)):
+                tracks.append(run_track(n, gen, False, total_delta=delta, given_task=given))
+                tracks.append(run_track(n, gen, True, dsched.RandomStrategy(chk.seed * 100 + n, p=0.4), total_delta=delta, given_task=given))
             for sd in range(chk.pick(3, 12)):
                 tracks.append(run_track(n, gen, True, dsched.RandomStrategy(chk.seed * 100 + sd, p=0.4)))
     judge_tracks(chk, tracks)
@@ -434,9 +441,11 @@ def judge_tracks(chk, tracks):
     chk.add_tlc(st, "M3-track")
     chk.traces += len(tracks)
     for rec, v in zip(tracks, verdicts):
-        chk.case(("track", rec["n"], rec["gen"], rec["auto"], tuple(rec.get("choices", []))), rec["n"] > 0)
+        chk.case(("track", rec["n"], rec["gen"], rec["auto"], rec.get("total_delta", 0), rec.get("given_task", False), tuple(rec.get("choices", []))), rec["n"] > 0)
         if v != "ok":
-            chk.reject("%s auto=%s gen=%s" % (v, rec["auto"], rec["gen"]), v, dict(kind="track", n=rec["n"], gen=rec["gen"], auto=rec["auto"], choices=rec.get("choices", []), yielded=rec["yielded"], c2=rec["c2"]))
+            chk.reject("%s auto=%s gen=%s total=%s given_task=%s" % (v, rec["auto"], rec["gen"], "n" if not rec.get("total_delta") else ("less" if rec["total_delta"] < 0 else "more"), rec.get("given_task", False)),
+                       v, dict(kind="track", n=rec["n"], gen=rec["gen"], auto=rec["auto"], choices=rec.get("choices", []), yielded=rec["yielded"], c2=rec["c2"],
+                               total_delta=rec.get("total_delta", 0), given_task=rec.get("given_task", False)))
     if tracks:
         chk.sample(dict(kind="track", n=tracks[-1]["n"], generator=tracks[-1]["gen"], auto_refresh=tracks[-1]["auto"], yielded=tracks[-1]["yielded"], completed_x2=tracks[-1]["c2"]))
 
